@@ -146,6 +146,8 @@ def map_type(q):
         return CType('int', None, '', ref)
     if base in ITER:
         return CType(ITER[base], None, '', ref, 1)
+    if base in ('url_aggregator', 'url', 'errors') and 'ada::' + base in CLASSES:
+        base = 'ada::' + base     # unqualified spelling inside namespace ada (template instantiations)
     if base in CLASSES:
         c, k = CLASSES[base]
         return CType(c, k, '', ref)
